@@ -2,7 +2,9 @@ package oracle
 
 import (
 	"bytes"
+	"net/http"
 	"strconv"
+	"strings"
 
 	"verif/harness/model"
 	"verif/harness/world"
@@ -53,6 +55,9 @@ func C09(o *world.Obs) *Result {
 			r.Fail("C09", "wrong-entry", ex.Idx, "expected stored reply s%d, got tok=%q; %s", ob.Entry.Reply.Serial, ex.Resp.Header.Get("X-Tok"), SummarizeExchange(o, ex))
 		}
 	}
+	// an unsafe request to ANOTHER origin does not invalidate the entry, whatever its
+	// response's Location / Content-Location names (RFC 9111 §4.4: same origin only)
+	crossOriginObligations(o, r, "C09")
 	return r
 }
 
@@ -101,6 +106,37 @@ func C08(o *world.Obs) *Result {
 		if (inm != "" && !etags[inm]) || (inm == "" && ims != "" && !lms[ims]) {
 			r.Fail("C08", "304-applied-to-another-reply", ex.Idx, "the 304 s%d answered a request with If-None-Match=%q If-Modified-Since=%q, validators reply s%d never had, yet its fields were merged into s%d; %s",
 				val, inm, ims, tok, tok, SummarizeExchange(o, ex))
+		}
+	}
+	// the response of the validating exchange itself is the freshened stored response: every
+	// stored field is still there, the 304's fields have replaced their namesakes
+	for _, ex := range o.Exchanges {
+		if ex.Resp == nil || !IsPlainGET(ex.Req) || HasClientConditional(ex.Req) {
+			continue
+		}
+		c304 := o.Validated304(ex)
+		src := o.CallBySerial(world.TokOf(ex.Resp.Header))
+		if c304 == nil || src == nil || ex.Resp.Header.Get("X-Val") != strconv.Itoa(c304.Serial) {
+			continue
+		}
+		r.NonTrivial = true
+		r.Label("revalidated-response-checked")
+		suffix := "+s" + strconv.Itoa(c304.Serial)
+		why, matched, candidates := "", false, 0
+		for _, v := range Versions(o, src, ex.EndSeq+1) {
+			if !strings.HasSuffix(strings.TrimSuffix(v.Why, " (old clock)"), suffix) {
+				continue
+			}
+			candidates++
+			if d := mergedFieldsDiff(v.Header, ex.Resp.Header); d == "" {
+				matched = true
+				break
+			} else {
+				why = d
+			}
+		}
+		if candidates > 0 && !matched {
+			r.Fail("C08", "revalidated-fields-wrong", ex.Idx, "the response validated by 304 s%d is not the stored reply s%d with the 304's fields applied: %s; %s", c304.Serial, src.Serial, why, SummarizeExchange(o, ex))
 		}
 	}
 	for _, ob := range sh.Obligations {
@@ -158,6 +194,26 @@ func C08(o *world.Obs) *Result {
 		}
 	}
 	return r
+}
+
+// mergedFieldsDiff compares the end-to-end fields of an admissible merged version with a
+// returned header ("" if they agree).
+func mergedFieldsDiff(want, got http.Header) string {
+	hop := model.HopByHop(want)
+	for k, vs := range want {
+		if hop[k] || k == "Content-Length" || k == "Age" || k == "X-Httpcache-Status" || k == "X-From-Cache" {
+			continue
+		}
+		if k == "Date" {
+			if _, ok := model.HTTPDate(want.Get("Date")); !ok || len(vs) != 1 {
+				continue // the cache substitutes its own Date for a missing/invalid one
+			}
+		}
+		if d := diffValues(vs, got.Values(k)); d != "" {
+			return "field " + k + ": " + d + " (want " + strconv.Quote(joinVals(vs)) + ")"
+		}
+	}
+	return ""
 }
 
 // otherVariantValidated: the obligation is about a variant that must have survived the
